@@ -148,3 +148,5 @@ def case_cli(run, i):
 WORKLOADS = {"table": (_n, case_table), "cli": (_n_cli, case_cli)}
 _Q = {"cli.call[plumbing]|held": 25, "call.do_call|held": 400, "call.absolute_threshold|held": 400, "call.do_call[allelic]|held": 150, "call.rescale_baf|held": 30}
 QUOTAS = {"quick": _Q, "thorough": _Q}
+
+INTERNAL_MONITORS = {"call.absolute_threshold": [], "call.rescale_baf": []}
